@@ -1,6 +1,7 @@
 package props
 
 import (
+	"google.golang.org/protobuf/proto"
 	"bytes"
 	"context"
 	"encoding/binary"
@@ -96,6 +97,34 @@ func genOp(t *rapid.T, l layoutSpec, kinds []string, n *int) opSpec {
 }
 
 // buildCall creates the hrpc call for an op through the public constructors.
+// slowGet / slowMutate are calls for which building the response object takes a while: the region
+// client's reader calls NewResponse for one call after the other while it hands out the results of
+// a multi-response, so the results of one response reach their callers d apart (a loaded process,
+// a large response). Nothing else in the client calls NewResponse.
+type slowGet struct {
+	*hrpc.Get
+	d time.Duration
+}
+
+func (s *slowGet) NewResponse() proto.Message { time.Sleep(s.d); return s.Get.NewResponse() }
+
+type slowMutate struct {
+	*hrpc.Mutate
+	d time.Duration
+}
+
+func (s *slowMutate) NewResponse() proto.Message { time.Sleep(s.d); return s.Mutate.NewResponse() }
+
+func wrapSlow(call hrpc.Call, d time.Duration) hrpc.Call {
+	switch c := call.(type) {
+	case *hrpc.Get:
+		return &slowGet{c, d}
+	case *hrpc.Mutate:
+		return &slowMutate{c, d}
+	}
+	return call
+}
+
 // sharedTable returns the table name as a slice with spare capacity that every call of the
 // process shares (applications keep table names in reused buffers: buf[:n]); the bytes beyond its
 // length belong to the caller, so nothing may ever be written there.
